@@ -909,7 +909,7 @@ def gen_candset_spec(g, l, r, c_l, c_r, size_hint=None):
     if x < 0.4:
         spec['index'] = list(range(n))
     elif x < 0.7:
-        spec['index'] = rng.sample(range(1000), n)
+        spec['index'] = rng.sample(range(max(1000, 2 * n)), n)
     else:
         spec['index'] = ['c%d' % rng.randint(0, 5) for _ in range(n)]
     if rng.random() < 0.3:
